@@ -19,7 +19,7 @@ MANIFEST = dict(
           "the theorem about crash points assumes no growth-forced checkpoint inside an operation (open finding F26); checkpoint thread idle"),
     technique="Lean 4 proof over executable model + crash enumeration with link-time interposers + differential correspondence")
 MODULE = "IwModel.Props.C04"
-THEOREMS = []
+THEOREMS = ["IwModel.C04.replay_idempotent", "IwModel.C04.replay_idempotent_twice"]
 WRAPS = ("write", "pwrite64", "ftruncate64", "fsync", "fdatasync", "msync")
 
 
@@ -142,13 +142,17 @@ def explore(ctx, h, drv, label, nhist, nops, stride, n2):
         cl = ["crash %d" % k for k in ks]
         for _ in range(n2):
             cl.append("crash %d %d" % (r.randrange(total + 1), r.randrange(0, 40)))
-        rc, out2, err2 = C.run_lines([h], lines + cl + ck, timeout=1800)
-        if len(out2) != 1 + len(cl) + len(ck):
+        rc, out2, err2 = C.run_lines([h], lines + cl, timeout=1800)
+        if len(out2) != 1 + len(cl):
             ctx.corr_broken.append("crash enumeration harness died: rc=%s %s" % (rc, err2[-400:]))
             continue
         for opl, line in zip(cl, out2[1:1 + len(cl)]):
             ctx.case((label, hi, opl))
             at = W.field(line, "at")
+            if at == "record.main" and " " not in opl[6:] and W.field(line, "ck") is not None and int(W.field(line, "ck")) < nck:
+                # the image a killed checkpoint left must be what the model's loop leaves with fuel for the records before that store
+                c = int(W.field(line, "ck"))
+                ck.append("partial %s/pre%d %s/wal%d %s %d %s %s" % (obs, c, obs, c, W.field(line, "stores"), crc, W.field(line, "cmsz"), W.field(line, "cmh")))
             ctx.hist("kill-before-" + at)
             if W.field(line, "rat") not in (None, "none"):
                 ctx.hist("kill-in-recovery-before-" + W.field(line, "rat"))
@@ -159,10 +163,10 @@ def explore(ctx, h, drv, label, nhist, nops, stride, n2):
                 ctx.fail(sig, dict(lines=lines, op=opl, impl=line, states=states), prob[1])
         if drv and ck:
             rc, mo, me = C.run_lines([drv, "c04"], ck, timeout=600)
-            io = out2[1 + len(cl):]
+            rc, io, ie = C.run_lines([h], ck, timeout=600)
             for opl, a, b in zip(ck, io, mo + ["<missing>"] * len(ck)):
                 ctx.cov["traces_validated_against_impl"] += 1
-                ctx.hist("checkpoint-replayed-by-model")
+                ctx.hist("checkpoint-replayed-by-model" if opl.startswith("ckpt") else "killed-checkpoint-image-matches-model")
                 if a != b:
                     ctx.corr_broken.append("model/implementation diverge on checkpoint `%s`: impl `%s` model `%s`" % (opl, a, b))
                     if len(ctx.corr_broken) <= 5:
